@@ -65,11 +65,19 @@ def setField (U : Universe) (fuel : Nat) (t : TSt) (f : Field) (v : Val) : TSt Ã
     let r := execOp U fuel t.d (.dispatch f.event sv.show)
     ({ t with d := r.1 }, r.2)
 
-/-- constructor: values are stored the same way, nothing is dispatched (spatial.py:28-35,83-90) -/
+/-- `Vec2(*value)` / `Vec3(*value)`: the vector of the given components, whatever sequence type they came
+in (value tokens start with `p` for a vector, `t` for a tuple, `l` for a list) -/
+def asVec : Val â†’ Val
+  | .tok s => if s.startsWith "t" || s.startsWith "l" then .tok ("p" ++ (s.drop 1).toString) else .tok s
+  | v => v
+
+/-- constructor: vectors are rebuilt from the given components (`Vec2(*position)`), the 2D rotation is
+reduced like in the setter, nothing is dispatched (spatial.py:28-35,83-90) -/
 def construct (is3D : Bool) (held : List Obj) (pos rot scale : Option Val) : Option TSt :=
-  let p := pos.getD (.tok (if is3D then "p0_0_0" else "p0_0"))
-  let s := scale.getD (.tok (if is3D then "p1_1_1" else "p1_1"))
+  let p := asVec (pos.getD (.tok (if is3D then "p0_0_0" else "p0_0")))
+  let s := asVec (scale.getD (.tok (if is3D then "p1_1_1" else "p1_1")))
   let r := rot.getD (if is3D then .tok "p0_0_0" else .half 0)
+  let r := if is3D then asVec r else r
   (stored is3D .rotation r).map fun r' =>
     { d := { held := held }, is3D := is3D, position := p, rotation := r', scale := s }
 
